@@ -398,3 +398,197 @@ def c07_4(run):
     if not n_ok:
         raise Inconclusive('vacuity: no block built')
     run.require_reached(*run.cur.reach)
+
+
+# ----------------------------------------------------------------------------------------------------------------- C07-5
+from mirsym.engine import ok, err
+
+
+@obligation('C07', 'C07-5 post_execute_transactions: the block is built from exactly the executed transactions\' rollup data in execution order and the deposits cached during execution; the same deposits and block are persisted under this block hash; the cached finalize results list the executed transactions in order')
+def c07_5(run):
+    from vlib.seqworld import SCALARS
+    R = re.compile
+    sc = {k: v for k, v in SCALARS.items() if k != 'tendermint::Hash'}
+    sc.update({'sequencerblock::v1::block::Hash': 256, 'block::Hash': 256, 'astria_core::sequencerblock::v1::block::Hash': 256})
+    cfg = {}
+
+    def fut(alts):
+        return M.thunk_future(lambda ex, s2, f: alts)
+
+    def failing(name, okval, is_async=False):
+        def h(ctx):
+            okv = z3.Bool(name + '_ok')
+            ctx.st.log.append((name,) + tuple(ctx.args[1:]))
+            alts = [(okv, (lambda s2: ok(okval(ctx, s2)))), (z3.Not(okv), (lambda s2: err(Obj('eyre::Report', kind='error'))))]
+            return [(None, fut(alts))] if is_async else alts
+        return h
+
+    def h_end_block(ctx, s):
+        return B.struct(ctx.ex, 'tendermint::abci::response::EndBlock', events=cfg['eb_events'](), validator_updates=cfg['eb_updates']())
+
+    def tagged_vec(ty, tag, n=1):
+        def mk():
+            items = []
+            for i in range(n):
+                o = Obj(ty.split('<', 1)[1][:-1], kind='opaque'); o.attrs['ident'] = f'{tag}{i}'; items.append(o)
+            return M.new_vec(ty, items)
+        return mk
+    cfg['eb_events'] = tagged_vec('Vec<Event>', 'end_block_event')
+    cfg['eb_updates'] = tagged_vec('Vec<Update>', 'validator_update')
+
+    def h_deposits(ctx):
+        d = Obj('Deposit', kind='opaque'); d.attrs['ident'] = 'cached_deposit'
+        return [(None, M.new_map('HashMap<RollupId, Vec<Deposit>>', [(z3.BitVec('deposit_rollup', 256), M.new_vec('Vec<Deposit>', [d]))]))]
+
+    def h_rollup_bytes(ctx):
+        tx = ctx.ex.deref_val(ctx.st, ctx.args[0])
+        idx = tx.attrs.get('idx')
+        pairs = []
+        for j in range(cfg['data_per_tx'][idx]):
+            b = Obj('bytes::Bytes', kind='opaque'); b.attrs['ident'] = f'data_{idx}_{j}'
+            pairs.append((B.cell(z3.BitVec(f'rid_{idx}_{j}', 256)), B.cell(b)))
+        it = Obj('Iter', kind='iter'); it.attrs['src'] = M.new_vec('Vec', pairs); it.attrs['pos'] = 0; it.attrs['mode'] = 'val'
+        return [(None, it)]
+
+    def h_id(ctx):
+        tx = ctx.ex.deref_val(ctx.st, ctx.args[0])
+        return [(None, B.cell(z3.BitVec(f'txid_{tx.attrs.get("idx")}', 256)))]
+
+    def h_build(ctx):
+        okv = z3.Bool('try_build_ok')
+        ctx.st.log.append(('try_build', ctx.args[0]))
+
+        def mk(s2):
+            o = Obj('SequencerBlock', kind='opaque'); o.attrs['ident'] = 'built_block'
+            return ok(o)
+        return [(okv, mk), (z3.Not(okv), (lambda s2: err(Obj('SequencerBlockError', kind='error'))))]
+
+    def h_upg_end(ctx):
+        some_ = z3.Bool('consensus_params_updated'); okv = z3.Bool('upgrades_end_block_ok')
+        ctx.st.log.append(('upgrades_end_block',))
+
+        def mk(s2):
+            o = Obj('tendermint::consensus::Params', kind='opaque'); o.attrs['ident'] = 'new_params'
+            return ok(some(o))
+        return [(None, fut([(z3.And(okv, some_), mk), (z3.And(okv, z3.Not(some_)), (lambda s2: ok(none()))), (z3.Not(okv), (lambda s2: err(Obj('eyre::Report', kind='error'))))]))]
+
+    def h_repeat_n(ctx):
+        n = z3.simplify(ctx.args[1])
+        if not z3.is_bv_value(n):
+            raise Inconclusive('repeat_n with symbolic count')
+        it = Obj('Iter', kind='iter'); it.attrs['src'] = M.new_vec('Vec', [ctx.args[0]] * n.as_long()); it.attrs['pos'] = 0; it.attrs['mode'] = 'val'
+        return [(None, it)]
+
+    def log_only(name, ret=()):
+        def h(ctx):
+            ctx.st.log.append((name,) + tuple(ctx.args[1:]))
+            return [(None, ret() if callable(ret) else ret)]
+        return h
+    ident = lambda ctx: [(None, ctx.ex.deref_val(ctx.st, ctx.args[0]))]
+    hooks = [
+        (R(r'(^|::)set_executed_block$'), failing('set_executed_block', lambda c, s: ())),
+        (R(r'StateReadExt>::get_chain_id$'), lambda ctx: [(None, fut([(None, (lambda s2: ok(cfg['chain_id'](s2))))]))]),
+        (R(r'StateReadExt>::get_sudo_address$'), lambda ctx: [(None, fut([(None, ok(z3.BitVec('sudo_address', 160)))]))]),
+        (R(r'(^|::)App::end_block$'), failing('end_block', h_end_block, True)),
+        (R(r'^(cnidarium::)?StateDelta::<.*>::new$'), lambda ctx: [(None, Obj('StateDelta', kind='opaque'))]),
+        (R(r'get_cached_block_deposits$'), h_deposits),
+        (R(r'StateWriteExt>::put_deposits$'), failing('put_deposits', lambda c, s: ())),
+        (R(r'StateWriteExt>::put_sequencer_block$'), failing('put_sequencer_block', lambda c, s: ())),
+        (R(r'ExpandedBlockData::injected_transaction_count$'), lambda ctx: [(None, z3.BitVecVal(cfg['injected'], 64))]),
+        (R(r'^std::iter::repeat_n::<'), h_repeat_n),
+        (R(r'CheckedTransaction::rollup_data_bytes$'), h_rollup_bytes),
+        (R(r'CheckedTransaction::id$'), h_id),
+        (R(r'SequencerBlockBuilder::try_build$'), h_build),
+        (R(r'UpgradesHandler::end_block(::<.*>)?$'), h_upg_end),
+        (R(r'object_put::<'), log_only('object_put')),
+        (R(r'(^|::)App::apply$'), log_only('apply', lambda: M.new_vec('Vec<Event>', []))),
+        (R(r'^<(tendermint::abci::types::)?ExecTxResult as (std::clone::)?Clone>::clone$|^<(bytes::)?Bytes as (std::clone::)?Clone>::clone$|^<SequencerBlock as (std::clone::)?Clone>::clone$|^<Arc<.*> as (std::clone::)?Clone>::clone$'), ident),
+        (R(r'^<(tendermint::abci::types::)?ExecTxResult as (std::default::)?Default>::default$'), lambda ctx: [(None, _tag(Obj('tendermint::abci::types::ExecTxResult', kind='opaque'), 'default_result'))]),
+        (R(r'Code::is_err$'), lambda ctx: [(None, z3.Bool('code_is_err'))]),
+        (R(r'block::Hash::new$'), lambda ctx: [(None, ctx.args[0])]),
+        (R(r'(^|::)Height::value$'), lambda ctx: [(None, ctx.ex.deref_val(ctx.st, ctx.args[0]))]),
+        (R(r'(^|::)Metrics::\w+$'), lambda ctx: [(None, ())]),
+        (R(r'display_consensus_params$|^(telemetry::display::)?json'), lambda ctx: [(None, Obj('s', kind='opaque'))]),
+    ]
+    ex = loader.load(['astria-sequencer', 'astria-core'], scalar_types=sc, dep_adts=['tendermint'], hooks=hooks)
+    cands = [n for n in ex.fns if n.endswith('::post_execute_transactions') and 'closure' not in n and ex.impl_self(n) == (None, 'App')]
+    if len(cands) != 1:
+        raise Inconclusive(f'App::post_execute_transactions not found: {cands}')
+    shapes = [([], 0), ([1], 0), ([2], 2), ([1, 1], 0), ([0, 2], 2), ([1, 0, 1], 0)]
+    run.bound(blocks=f'{len(shapes)} block shapes: 0..3 executed transactions with 0..2 rollup data items each, 0 or 2 injected transactions, one cached deposit',
+              steps='set_executed_block, end_block, put_deposits, SequencerBlockBuilder::try_build (C07-4), put_sequencer_block, UpgradesHandler::end_block are oracles that succeed or fail; their arguments are what is decided')
+    n_ok = 0
+    for si, (shape, injected) in enumerate(shapes):
+        cfg['data_per_tx'] = shape; cfg['injected'] = injected
+        cfg['chain_id'] = lambda s2: _tag(Obj('tendermint::chain::Id', kind='opaque'), 'chain_id')
+        etxs = []
+        for i in range(len(shape)):
+            tx = Obj('CheckedTransaction'); tx.attrs['idx'] = i
+            arc = Obj('Arc<CheckedTransaction>', kind='arc'); arc.fields[('in', 0)] = tx; arc.attrs['idx'] = i
+            etxs.append(B.struct(ex, 'ExecutedTransaction', tx=arc, exec_result=_tag(Obj('tendermint::abci::types::ExecTxResult', kind='opaque'), f'result_{i}')))
+        ebd = B.struct(ex, 'ExpandedBlockData', user_submitted_transactions=M.new_vec('Vec<Bytes>', [Obj('Bytes', kind='opaque') for _ in shape]))
+        ebd.attrs['ident'] = 'expanded_block_data'
+        bh = z3.BitVec('block_hash', 256)
+        app = B.struct(ex, 'app::App', execution_state=Obj('ExecutionStateMachine', kind='opaque'), state=Obj('Arc<StateDelta<Snapshot>>', kind='arc'), metrics=B.cell(Obj('Metrics')))
+        st = ex.start(cands[0], [B.cell(app), B.variant(ex, 'tendermint::Hash', 'Sha256', **{'0': bh}), z3.BitVec('height', 64), z3.BitVec('time', 128), z3.BitVec('proposer', 160), ebd,
+                                 M.new_vec('Vec<ExecutedTransaction>', etxs)])
+        for pi, p in enumerate(run.explore(ex, st, poll=True, allow_havoc=(r'^Arguments::|fmt::',))):
+            lab = f'[shape {si}: data per tx {shape}, injected {injected}, path {pi}]'
+            if p.kind != 'return':
+                run.prove(f'no panic {lab}', p.pc, z3.BoolVal(False), detail=p.info); continue
+            kind, r = A.poll_result(p)
+            names = [e[0] for e in p.log]
+            run.sample({'shape': si, 'path': pi, 'result': kind, 'effects': names})
+            if 'set_executed_block' in names:
+                run.prove(f'the executed-block fingerprint is recorded first, for this block hash {lab}', p.pc,
+                          z3.And(z3.BoolVal(names[0] == 'set_executed_block'), ex.deref_val(p, p.log[0][1]) == bh))
+            for later, earlier in (('end_block', 'set_executed_block'), ('try_build', 'end_block'), ('put_sequencer_block', 'try_build'), ('object_put', 'put_sequencer_block'), ('apply', 'object_put')):
+                if later in names:
+                    run.prove(f'{later} only after {earlier} succeeded {lab}', p.pc, z3.And(z3.BoolVal(earlier in names and names.index(earlier) < names.index(later)), z3.Bool(earlier + '_ok') if earlier not in ('object_put',) else z3.BoolVal(True)))
+            if kind != 'Ok':
+                run.prove(f'a failed post-execution never applies its state changes {lab}', p.pc, z3.BoolVal('apply' not in names))
+                continue
+            n_ok += 1
+            dep_ident = lambda m: [(ex.deref_val(p, k), [ex.deref_val(p, d).attrs.get('ident') for d in ex.deref_val(p, v).attrs['items']]) for k, v in ex.deref_val(p, m).attrs['items']]
+            claims = [z3.BoolVal(names.count(n) == 1) for n in ('set_executed_block', 'end_block', 'put_deposits', 'try_build', 'put_sequencer_block', 'upgrades_end_block', 'object_put', 'apply')]
+            claims.append(z3.BoolVal(names[-1] == 'apply'))
+            pd = [e for e in p.log if e[0] == 'put_deposits'][0]
+            pdh = ex.deref_val(p, pd[1]); pdd = dep_ident(pd[2])
+            claims += [pdh == bh, z3.BoolVal(len(pdd) == 1 and pdd[0][1] == ['cached_deposit']), pdd[0][0] == z3.BitVec('deposit_rollup', 256)]
+            bld = ex.deref_val(p, [e for e in p.log if e[0] == 'try_build'][0][1])
+            bdd = dep_ident(B.fld(ex, p, bld, 'deposits'))
+            claims += [B.fld(ex, p, bld, 'block_hash', 'block::Hash') == bh, B.fld(ex, p, bld, 'height', 'tendermint::block::Height') == z3.BitVec('height', 64),
+                       B.fld(ex, p, bld, 'time', 'tendermint::Time') == z3.BitVec('time', 128), B.fld(ex, p, bld, 'proposer_address', 'tendermint::account::Id') == z3.BitVec('proposer', 160),
+                       z3.BoolVal(ex.deref_val(p, B.fld(ex, p, bld, 'chain_id')).attrs.get('ident') == 'chain_id'),
+                       z3.BoolVal(ex.deref_val(p, B.fld(ex, p, bld, 'expanded_block_data')).attrs.get('ident') == 'expanded_block_data'),
+                       z3.BoolVal(len(bdd) == 1 and bdd[0][1] == ['cached_deposit']), bdd[0][0] == z3.BitVec('deposit_rollup', 256)]
+            rdb = ex.deref_val(p, B.fld(ex, p, bld, 'rollup_data_bytes')).attrs['items']
+            want = [(i, j) for i, k in enumerate(shape) for j in range(k)]
+            claims.append(z3.BoolVal(len(rdb) == len(want)))
+            for (rid, data), (i, j) in zip(rdb, want):
+                claims += [ex.deref_val(p, rid) == z3.BitVec(f'rid_{i}_{j}', 256), z3.BoolVal(ex.deref_val(p, data).attrs.get('ident') == f'data_{i}_{j}')]
+            run.prove(f'Ok => deposits persisted under this block hash = cached deposits = deposits in the block; the block carries the rollup data of the executed transactions in execution order, and this height / time / proposer / chain id / block data {lab}', p.pc, z3.And(*claims))
+            psb = ex.deref_val(p, [e for e in p.log if e[0] == 'put_sequencer_block'][0][1])
+            ret = ex.deref_val(p, r.fields[('Ok', 0)])
+            run.prove(f'Ok => the block that was built is the one persisted and returned {lab}', p.pc, z3.BoolVal(psb.attrs.get('ident') == 'built_block' and ret.attrs.get('ident') == 'built_block'))
+            op = [e for e in p.log if e[0] == 'object_put'][0]
+            res = ex.deref_val(p, op[2])
+            txr = ex.deref_val(p, B.fld(ex, p, res, 'tx_results')).attrs['items']
+            c2 = [z3.BoolVal(len(txr) == len(shape))]
+            for i, item in enumerate(txr[:len(shape)]):
+                tid, er = item if isinstance(item, tuple) else (None, None)
+                c2 += [ex.deref_val(p, tid) == z3.BitVec(f'txid_{i}', 256), z3.BoolVal(ex.deref_val(p, er).attrs.get('ident') == f'result_{i}')]
+            idents = lambda v: [ex.deref_val(p, x).attrs.get('ident') for x in ex.deref_val(p, v).attrs['items']]
+            c2 += [z3.BoolVal(idents(B.fld(ex, p, res, 'events')) == ['end_block_event0']), z3.BoolVal(idents(B.fld(ex, p, res, 'validator_updates')) == ['validator_update0']),
+                   B.fld(ex, p, res, 'injected_tx_count', 'usize') == z3.BitVecVal(injected, 64)]
+            cpu = ex.deref_val(p, B.fld(ex, p, res, 'consensus_param_updates'))
+            c2.append(z3.If(z3.Bool('consensus_params_updated'), z3.BoolVal(cpu.discr == 'Some' and ex.deref_val(p, cpu.fields.get(('Some', 0))).attrs.get('ident') == 'new_params' if cpu.discr == 'Some' else False), z3.BoolVal(cpu.discr == 'None')))
+            run.prove(f'Ok => the cached finalize results list exactly the executed transactions (id, result) in execution order, end_block\'s events and validator updates, the injected count and the upgrade\'s consensus params {lab}', p.pc, z3.And(*c2))
+    if not n_ok:
+        raise Inconclusive('vacuity: no successful path')
+    run.require_reached(*run.cur.reach)
+
+
+def _tag(o, ident):
+    o.attrs['ident'] = ident
+    return o
